@@ -39,6 +39,10 @@ func comparePreRelease[T1, T2 constraint.ParserInput](shorter T1, longer T2) int
 	// compare byte by byte, len(s) <= len(l) is guaranteed by caller
 	for i := 0; i < len(s); i++ {
 		if s[i] != l[i] {
+			// digits in front of the first difference belong to the compared numbers (11 < 101)
+			for i > 0 && s[i-1] >= '0' && s[i-1] <= '9' {
+				i--
+			}
 			return comparePreReleaseSuffix(s[i:], l[i:])
 		}
 	}
